@@ -136,14 +136,20 @@ func setECS(
 	} else {
 		opt.SetUDPSize(dnsmsg.DefaultEDNSUDPSize)
 
+		found := false
 		for _, o := range opt.Option {
 			if edns, ok := o.(*dns.EDNS0_SUBNET); ok {
+				edns.Family = uint16(ecsFam)
 				edns.SourceNetmask = prefixLen
 				edns.SourceScope = scope
 				edns.Address = ip
 
-				return nil
+				found = true
 			}
+		}
+
+		if found {
+			return nil
 		}
 	}
 
